@@ -180,6 +180,8 @@ def check_copy_family(rep, scr, tier, seed):
     if pid in ('C01', 'C03', 'C04', 'C05', 'C06'):
         for v in variants: getenv_batch(rep, scr, impls[v], md, consts[v], pid, v, tier, seed)
     if pid == 'C05': printf_report_batch(rep, scr, impls['O1'], consts['O1'], tier, seed)
+    if pid in ('C01', 'C02', 'C03', 'C04', 'C06', 'C08'):
+        for v in variants: sweep_batch(rep, scr, impls[v], consts[v], pid, v, tier, seed)
     report_proofs(rep, pr, pid)
     report_mismatches(rep, 'T1')
     rep.trusted = TRUSTED_COMMON
@@ -351,6 +353,60 @@ def c02_query_extents(rep, scr, impl, md, consts, tier, seed):
                                 {'key': (c.func, 'query-extent', m['which']), 'property': 'C02', 'function': c.func, 'failure': 'fault', 'case': c.to_json(), 'case_line': c.line(), 'impl_outcome': a.raw})
         b = om.get(c.id) if c.func in C10_MODELLED else None
         if b is not None and a.fault == '-' and (a.ret, a.blocks, a.handlers) != (b.ret, b.blocks, b.handlers): rep.mismatches.append((c, a, b, 'O1'))
+
+def sweep_batch(rep, scr, impl, consts, pid, var, tier, seed):
+    """cross-cutting properties on the destination-writing entry points outside the copy/memory core (harness/sweep.py):
+    implementation-side oracles, generic in the destination descriptor of each case"""
+    import sweep, random
+    rng = random.Random(seed * 13 + 5)
+    groups = [('C', sweep.ext_cases(seed, tier, consts, pid))]
+    if pid in ('C01', 'C03', 'C04', 'C08'): groups.append(('C', sweep.fmt_cases(seed, tier, consts)))
+    if pid in ('C01', 'C03', 'C04', 'C06', 'C08'):
+        for loc, locname in (('u8', 'C.UTF-8'), ('c', 'C')):
+            cc = []
+            for x in gen_conv_cases(seed, tier, consts, loc):
+                g = sweep.conv_gd(x)
+                if g is None: continue
+                x.id = 'k' + loc + x.id; x.meta['gd'] = g; x.meta['cls'] = 'sweep-conv'; cc.append(x)
+            groups.append((locname, cc))
+    if pid in ('C01', 'C03', 'C04', 'C08'):
+        # normalisation / folding with every destination size from 1 to ample: Hangul, table characters, marks
+        uc = []; k = 0
+        pool = [[0xac01, 0xac01], [0xac00, 0xac01], [0xac00], [0xd7a3, 0x41], [0xe9, 0x41], [0x1e09], [0x41, 0x301, 0x327], [0x1100, 0x1161, 0x11a8], [0x3b1, 0x345], [0xdf], [0x130, 0x49], [0x1f80, 0xfb03]]
+        for s in pool:
+            for dmax in list(range(1, 14)) + [24]:
+                src = fam_copy.enc(s + [0], 4)
+                for mode in (0, 1):
+                    k += 1; uc.append(vlib.Case('un%d' % k, 'wcsnorm_s', [('R', b'\xee' * 8), ('R', fam_copy.garbage(rng, 4 * dmax)), ('R', src)], [(1, 0), dmax, (2, 0), mode, (0, 0), UNK],
+                                      dict(cls='sweep-uni', func='wcsnorm_s', s=s, mode=mode, gd=sweep.gd(1, 0, dmax, 4, producer=True, slack=True, writable=[(0, 0, 8)], copylike=True, readonly=[(2, 0, len(src))]))))
+                k += 1; uc.append(vlib.Case('un%d' % k, 'wcsfc_s', [('R', b'\xee' * 8), ('R', fam_copy.garbage(rng, 4 * dmax)), ('R', src)], [(1, 0), dmax, (2, 0), (0, 0), UNK],
+                                  dict(cls='sweep-uni', func='wcsfc_s', s=s, mode=-1, gd=sweep.gd(1, 0, dmax, 4, producer=True, slack=True, writable=[(0, 0, 8)], copylike=True, readonly=[(2, 0, len(src))]))))
+        for cp in (0x41, 0xdf, 0x130, 0x1f80, 0xfb03, 0x390, 0x1e9e):
+            for dmax in (1, 2, 3, 4, 5):
+                k += 1; uc.append(vlib.Case('un%d' % k, 'towfc_s', [('R', fam_copy.garbage(rng, 4 * dmax))], [(0, 0), dmax, cp, UNK],
+                                  dict(cls='sweep-uni', func='towfc_s', s=[cp], mode=-1, gd=sweep.gd(0, 0, dmax, 4, fail='neg'))))
+        groups.append(('C.UTF-8', uc))
+    scope = set()
+    for locname, cases in groups:
+        if not cases: continue
+        cf = '%s/cases_sweep_%s_%s_%d.txt' % (scr.dir, var, locname.replace('.', ''), len(cases))
+        with open(cf, 'w') as f:
+            for c in cases: f.write(c.line() + '\n')
+        oi = vlib.run_impl(impl, cf, cases, locale=(None if locname == 'C' and cases[0].meta['cls'] != 'sweep-conv' else locname))
+        for c in cases:
+            a = oi.get(c.id)
+            rep.evals += 1; rep.count('sweep/%s/%s' % (c.func, var)); scope.add(c.func)
+            if a is None:
+                rep.violation('driver produced no outcome for a case', {'key': 'nooutcome', 'case': c.to_json(), 'no_failing_input': True}); continue
+            rep.nontrivial.add((c.func, 'sweep', a.ret, tuple(a.handlers), var))
+            for kind, text in sweep.oracle(pid, c, a, consts):
+                kid = known.classify(rep, c, a, kind, var, consts)
+                if kid: rep.known_hits[kid] = rep.known_hits.get(kid, 0) + 1
+                else:
+                    rep.violation('%s(%s): %s' % (c.func, var, text),
+                                  {'key': (c.func, kind, var), 'property': pid, 'function': c.func, 'config': var, 'failure': kind, 'text': text,
+                                   'case': c.to_json(), 'case_line': c.line(), 'impl_outcome': a.raw, 'model_outcome': 'none (implementation-side oracle)'})
+    rep.extra['sweep_functions (implementation-side oracle only)'] = sorted(scope)
 
 REGISTRY = {p: check_copy_family for p in ('C01', 'C02', 'C03', 'C04', 'C05', 'C06', 'C07', 'C08')}
 
